@@ -735,9 +735,10 @@ pub fn gen_nop(rng: &mut Rng, em: &mut Emit, surf: usize, cfg: &DrawCfg) {
             em.push_flag(surf, Op::Stroke { path, src: any_src(rng), style, opts: gen_opts(rng, cfg.blend) }, 4);
         }
         3 => {
-            // zero / negative / NaN width
+            // zero width (C10's list). Negative and NaN widths are C04's business (not claimed);
+            // on the pinned tree a NaN width does paint (incidental finding, see DESIGN.md)
             let mut style = gen_stroke_style(rng, e);
-            style.width = F(rng.pick(&[0.0f32, -0.0, -1., -1e-6, f32::NAN, f32::NEG_INFINITY]));
+            style.width = F(rng.pick(&[0.0f32, -0.0]));
             let path = gen_path(rng, w, h, cfg.path);
             em.push_flag(surf, Op::Stroke { path, src: any_src(rng), style, opts: gen_opts(rng, cfg.blend) }, 1);
         }
